@@ -72,7 +72,7 @@ def build_message(kind, peer, seq):
 class Run:
     """One execution of a scenario under one schedule."""
 
-    def __init__(self, scenario, chooser, granularity="container", serialised=True):
+    def __init__(self, scenario, chooser, granularity="container", serialised=True, frag=None):
         import bits.p2p as p2p
         self.p2p = p2p
         p2p.set_magic_start_bytes("mainnet")
@@ -91,13 +91,24 @@ class Run:
             self.node._registered_commands_to_handle = l
         for p, ms in enumerate(self.msgs):
             stream = b"".join(rp.frame(MAG, c, pl) for c, pl, _, _ in ms)
-            sock = ScriptSock(stream, [], tail="max", on_eof=self._on_eof(p))
+            sched_ = []
+            if frag is not None:
+                # short reads: the peer's bytes arrive in arbitrary segments (a TCP stream has no message boundaries)
+                import random as _r
+                fr = _r.Random(frag * 7 + p)
+                left = len(stream)
+                while left > 0:
+                    c = fr.choice([1, 2, 3, 4, 5, 8, 13, 20, 23, 24, 25, 40, 100])
+                    sched_.append(c)
+                    left -= c
+            sock = ScriptSock(stream, sched_, tail="max", on_eof=self._on_eof(p))
             if serialised and granularity == "container":
                 sock.sendall = self._sendall_point(sock)
             self.socks.append(sock)
             self.node._peer_sockets[p] = sock
             self.node._peer_data[p] = {}
         self.granularity = granularity
+        self.frag = frag
 
     def _sendall_point(self, sock):
         orig = sock.sendall
@@ -273,7 +284,7 @@ def gen_cases(tier, seed):
 
 def required(tier):
     return {"dfs.schedules": 500, "dfs.subtrees_exhausted": 40, "random.container.schedules": 5000, "random.line.schedules": 400,
-            "stress.runs": 100, "stress.long_messages": 5000, "points.container": 20000, "points.line": 10000, "class.interleaved_enqueue_dequeue_window": 500,
+            "stress.runs": 100, "stress.long_messages": 5000, "points.container": 20000, "points.line": 10000, "class.interleaved_enqueue_dequeue_window": 500, "class.short_reads": 1000,
             "set:schedules": 4000}
 
 
@@ -297,14 +308,17 @@ def _report(ctx, run, trace, scenario, gran, strategy):
     switches = sum(1 for a, b in zip(tids, tids[1:]) if a != b)
     if switches >= 2:
         ctx.count("class.interleaved_enqueue_dequeue_window")
+    if run.frag is not None:
+        ctx.count("class.short_reads")
     for key, detail in run.check():
-        ctx.violation(f"{key}/{gran}", f"scenario {scenario} strategy {strategy}: {detail}", sub={"scenario": scenario, "gran": gran, "tids": tids})
+        ctx.violation(f"{key}/{gran}" + ("+short-reads" if run.frag is not None else ""), f"scenario {scenario} strategy {strategy} frag {run.frag}: {detail}",
+                      sub={"scenario": scenario, "gran": gran, "tids": tids, "frag": run.frag})
 
 
 def run_case(kind, params, ctx):
     if "sub" in params:  # replay of one exact schedule
         sub = params["sub"]
-        run = Run(sub["scenario"], S.ReplayChooser(sub["tids"]), sub["gran"])
+        run = Run(sub["scenario"], S.ReplayChooser(sub["tids"]), sub["gran"], frag=sub.get("frag"))
         trace = run.execute()
         _report(ctx, run, trace, sub["scenario"], sub["gran"], "replay")
         return
@@ -345,7 +359,7 @@ def run_case(kind, params, ctx):
                 ch = S.PCTChooser(rng, params["peers"], depth=rng.choice([2, 3, 4]), est_steps=30 if gran == "container" else 200)
             else:
                 ch = S.RandomChooser(rng)
-            run = Run(scenario, ch, gran)
+            run = Run(scenario, ch, gran, frag=(rng.getrandbits(24) if r % 3 == 2 else None))
             try:
                 trace = run.execute()
             except S.Deadlock as e:
@@ -359,7 +373,7 @@ def run_case(kind, params, ctx):
         # scheduling point separates are only reachable by real preemption
         for r in range(params["runs"]):
             scenario = [[rng.choice(["inv", "addr", "unknown", "ping", "inv"]) for _ in range(params["msgs"])] for _ in range(params["peers"])]
-            run = Run(scenario, None, "none", serialised=False)
+            run = Run(scenario, None, "none", serialised=False, frag=(rng.getrandbits(24) if r % 2 else None))
             run.execute()
             ctx.count("stress.runs")
             ctx.count("stress.long_messages", params["msgs"] * params["peers"])
